@@ -428,6 +428,28 @@ pub fn drive(args: &[String]) {
                 keys.push(k);
             }
         }
+        if sci == 4 || (sci == 5 && n_sc > 100) {
+            // saturation of a LARGE table (256 slots; 1024 in the thorough tier): the eviction chain of a failing insert
+            // then visits mostly distinct slots, so that a rollback which misses one entry of the undo log is visible
+            // (in tables of a few buckets the oldest entry for a slot hides a lost newer one)
+            let (b, nb, l) = (4usize, if sci == 4 { 64usize } else { 256 }, 16usize);
+            let bh = CtlBH::mix(rng.next());
+            let nkeys = b * nb + 40;
+            let mut keys: Vec<u64> = vec![];
+            while keys.len() < nkeys {
+                let k = rng.next();
+                if !keys.contains(&k) {
+                    keys.push(k);
+                }
+            }
+            let mut steps: Vec<Value> = vec![];
+            for ki in 0..nkeys {
+                let pat: Vec<u64> = (0..97).map(|_| rng.below(b as u64)).collect();
+                steps.push(json!({"obj": "a", "op": {"name":"ins","key": ki, "script": {"s2": rng.chance(1, 2), "pat": pat}}}));
+            }
+            out.put(&json!({"sc": sci, "cfg": {"b": b, "nb": nb, "l": l, "hasher": bh.to_json(), "keys": keys}, "steps": steps}));
+            continue;
+        }
         let cfg = json!({"b": b, "nb": nb, "l": l, "hasher": bh.to_json(), "keys": keys});
         let cap = (b * nb) as u64;
         let mut steps: Vec<Value> = vec![];
